@@ -218,7 +218,7 @@ fn placements(items: &[Expr]) -> Vec<Expr> {
 
 pub fn run(ctx: &Ctx) -> i32 {
     let acts = actions();
-    let maxn = ctx.tier.pick(4, 5);
+    let maxn = ctx.tier.pick(4, 6);
     let mut acc = Acc::new();
     for n in 1..=maxn {
         let total = (acts.len() as u64).pow(n as u32);
